@@ -675,7 +675,9 @@ func (v *VResult) checkCallbacks(c *Case, tr *Trace, rt *RT, i int, fn *MFn) {
 				}
 			case FaultError:
 				want := rt.errOf(ev.Fn, ev.Exec)
-				if cb.CBErr == nil || digRootCause(cb.CBErr) != error(want) {
+				// the callback may get the function's error itself (dig does
+				// not wrap a decorator's error) or dig's wrapping of it
+				if cb.CBErr == nil || (cb.CBErr != error(want) && digRootCause(cb.CBErr) != error(want)) {
 					v.add(CCallback, i, "%v failed with %v but its callback received Error=%v", g, want, cb.CBErr)
 				}
 			case FaultPanic:
@@ -732,6 +734,23 @@ func (v *VResult) checkLeaf(rt *RT, op int, ii *InvokeInfo, g *MFn, l MLeaf, obs
 				}
 			}
 		}
+		if exp != nil && exp.Fn.Slots[exp.Slot].Zero {
+			// the producer returns the zero value for this key by design
+			v.Labels["zero-valued-result-consumed"] = true
+			if obs.Tok != 0 {
+				v.add(CProvSingle, op, "%v leaf %s (%v) received %s, want the zero value that %v returns for it", g, l.Path, l.Key, v.descKey(rt, obs.Tok), exp.Fn)
+				return
+			}
+			if exp.Fn.OkExec >= 0 {
+				kind := "single"
+				if g.Kind == KDeco {
+					kind = "deco-input"
+				}
+				v.demand(exp.Fn.ID, kind, g.View)
+				return
+			}
+			// producer has not run: fall through to the zero-value rules
+		}
 		if obs.Tok == 0 {
 			if l.Opt && exp != nil && !m.LeafAvailable(g, l) {
 				v.Labels["optional-above-hole"] = true
@@ -786,6 +805,10 @@ func (v *VResult) checkLeaf(rt *RT, op int, ii *InvokeInfo, g *MFn, l MLeaf, obs
 	}
 	var got []string
 	for _, t := range obs.Elems {
+		if t == 0 {
+			got = append(got, "zero")
+			continue
+		}
 		if v.Poisoned[t] {
 			v.add(CPoisoned, op, "%v group leaf %s contains %s from a failed execution", g, l.Path, v.descKey(rt, t))
 		}
@@ -835,6 +858,9 @@ func (v *VResult) checkLeaf(rt *RT, op int, ii *InvokeInfo, g *MFn, l MLeaf, obs
 					continue
 				}
 				key := fmt.Sprintf("f%d#%d/%s/%d", f.ID, f.OkExec, s.Path, e)
+				if s.Zero {
+					key = "zero" // a member that is the zero value carries no token
+				}
 				memberOf[key] = f
 				if e == 0 {
 					v.demand(f.ID, "group", g.View)
@@ -868,7 +894,7 @@ func (v *VResult) checkLeaf(rt *RT, op int, ii *InvokeInfo, g *MFn, l MLeaf, obs
 	cnt := map[string]int{}
 	for _, k := range got {
 		cnt[k]++
-		if cnt[k] == 2 {
+		if cnt[k] == 2 && k != "zero" {
 			v.add(CSoftDup, op, "%v soft group leaf %s contains %s twice", g, l.Path, k)
 		}
 	}
